@@ -11,8 +11,9 @@ VARIABLE hist
 Bound == now <= MaxNow /\ Succ(win) + Fail(win) <= MaxCount
 GView == core
 GInit == Init /\ hist = <<>>
-\* compact encoding of an operation record: "B:c1:admitted" "P:c1" "E:c1:ok" "T" "M"
+\* compact encoding of an operation record: "B:c1:admitted" "K:c1" "P:c1" "E:c1:ok" "T" "M"
 Enc(r) == CASE r.op = "Begin"   -> "B:" \o r.c \o ":" \o r.res
+            [] r.op = "Park"    -> "K:" \o r.c
             [] r.op = "Pre"     -> "P:" \o r.c
             [] r.op = "End"     -> "E:" \o r.c \o ":" \o r.out
             [] r.op = "Tick"    -> "T"
